@@ -153,6 +153,7 @@ func encodeValueCtx1(v reflect.Value, c *encCtx) (string, string) {
 			return N("iface", X(v.Type().String()), "nil"), "In"
 		}
 		es, efp := encodeValueCtx(v.Elem(), c)
+		c.record("I"+efp, v)
 		return N("iface", X(v.Type().String()), es), "I" + efp
 	case reflect.Slice:
 		t := v.Type().String()
